@@ -52,6 +52,14 @@ BoolFailing(ev) ==
         \cup (IF Abs(ev.big[1] + ev.big[2] - ev.big[5] - ev.big[6]) <= 2 THEN {} ELSE {<<"big_scale_area_or_plus_and">>})
         \cup (IF Abs(ev.big[4] - (ev.big[5] - ev.big[2])) <= 2 THEN {} ELSE {<<"big_scale_area_not">>})
         \cup (IF Abs(ev.big[3] - (ev.big[1] - ev.big[2])) <= 2 THEN {} ELSE {<<"big_scale_area_xor">>})
+        \* the identities alone hold for consistently wrong results too (an operand that vanishes on the
+        \* fine grid): each fine-grid area is also the area of the same result on the coarse grid, up to
+        \* the coarse grid's rounding of non-Manhattan crossings (32-bit integers: scalings 1 and 8)
+        \cup (IF S > 8 THEN {}
+              ELSE LET coarse == <<aor, aand, axor, anot, aA, aB>>
+                       names == <<"or", "and", "xor", "not", "merge_a", "merge_b">> IN
+                   {<<"big_scale_area_differs_from_coarse_grid", names[k]>> :
+                      k \in {i \in 1..6 : Abs(ev.big[i] * 2 * S * S - 1000 * coarse[i]) > 1000 * tol + 4 * S * S}})
 
 Check(ev) == IF ev.e = "bool" THEN BoolFailing(ev) ELSE {<<ev.e>>}
 TInit == l = 1
